@@ -13,7 +13,11 @@ RULE = ("msprime tree sequences (2-9 contemporaneous samples, 1-1000 bp, recombi
         "renumbered, 15% with tied node times, 12% with a unary chain above a root (allow_unary=True); 12% with "
         "approximate_priors=True, approx_prior_size in {10,100,1000} in a private XDG_CACHE_HOME, cold vs warm grid compared bit "
         "for bit; population size passed as int / float / np.float64 / 1-element array / PopulationSizeHistory (same object "
-        "reused); a MixturePrior object reused for a second grid; x prior distribution (lognorm, gamma) x timepoints (integer 2..30, or an explicit grid: "
+        "reused); a MixturePrior object reused for a second grid; plus, ORACLE ONLY (no Coq evaluation: too big for literals), "
+        "3 (quick) / 6 (thorough) size-regime cases: 20-40 samples with recombination (20-80 non-sample nodes) and very fine "
+        "explicit grids (linspace / geometric, up to ~100000 points) or integer requests up to 1500 quantiles such that nodes x "
+        "timepoints crosses 2^16, 2^18, 2^20, 2^21, constant and two-epoch sizes, and in the thorough tier one single-tree input "
+        "with >= 56000 non-sample nodes and the default grid (approximate priors); every clause of the oracle on every row; x prior distribution (lognorm, gamma) x timepoints (integer 2..30, or an explicit grid: "
         "sorted or shuffled, starting at 0 or not, 2-12 values over 1e-3..1e5) x population size (scalar 0.5..1e4 or "
         "a 2-4 epoch PopulationSizeHistory); a case is non-trivial when the tree sequence has >= 2 non-sample nodes "
         "with different descendant counts or the thinning loop of create_timepoints adds a quantile")
@@ -117,6 +121,26 @@ def make_case(rng):
     return case, ts
 
 
+def expand_tp(tp):
+    """timepoints of a case: an int, a list of floats, or generator parameters of a fine grid (kept small in replays)"""
+    import numpy as np
+    if isinstance(tp, dict):
+        if tp["kind"] == "linspace":
+            return [float(x) for x in np.linspace(0.0, tp["hi"], tp["m"])]
+        return [0.0] + [float(x) for x in np.geomspace(tp["lo"], tp["hi"], tp["m"] - 1)]
+    return tp
+
+
+def ts_of(case):
+    d = case["ts"]
+    if "msprime" in d:
+        import msprime
+        return msprime.sim_ancestry(samples=d["msprime"]["n"], ploidy=1, sequence_length=d["msprime"].get("L", 1),
+                                    recombination_rate=d["msprime"].get("rec", 0.0), population_size=1.0,
+                                    random_seed=d["msprime"]["seed"])
+    return gen.ts_from_dict(d)
+
+
 def pop_obj(pop):
     from tsdate import demography
     if isinstance(pop, dict):
@@ -131,7 +155,7 @@ def same_grid(p, q):
             p.grid_data.shape == q.grid_data.shape and np.array_equal(p.grid_data, q.grid_data, equal_nan=True))
 
 
-def run_impl(case, ts=None, workdir=None):
+def run_impl(case, ts=None, workdir=None, light=False):
     """the public call + the intermediate objects of the same code path (inputs of the model)"""
     import os
     import shutil
@@ -139,8 +163,8 @@ def run_impl(case, ts=None, workdir=None):
     import tsdate
     import tsdate.prior as P
     if ts is None:
-        ts = gen.ts_from_dict(case["ts"])
-    tp = case["timepoints"]
+        ts = ts_of(case)
+    tp = expand_tp(case["timepoints"])
     tp_arg = tp if isinstance(tp, int) else np.array(tp, dtype=float)
     pop = case["pop"]
     popo = pop_obj(pop)
@@ -163,16 +187,17 @@ def run_impl(case, ts=None, workdir=None):
             kw.update(approximate_priors=True, approx_prior_size=case["approx"])
         with np.errstate(all="ignore"):
             prior = tsdate.build_prior_grid(ts, pop_arg, tp_arg, **kw)          # cold cache when approx
-            if case.get("approx"):
+            if case.get("approx") and not light:
                 extra["warm"] = tsdate.build_prior_grid(ts, pop_arg, tp_arg, **kw)   # warm: table read from disk
             mkw = {"prior_distribution": case["distr"], "allow_unary": bool(case.get("allow_unary"))}
             if case.get("approx"):
                 mkw.update(approximate_priors=True, approx_prior_size=case["approx"])
             mp = P.MixturePrior(ts, **mkw)
-            # the same MixturePrior object reused: a second grid first, then the one asked for
-            other = 3 if isinstance(tp, int) else 4
-            mp.make_discretised_prior(pop_arg, other)
-            extra["reused"] = mp.make_discretised_prior(pop_arg, tp_arg)
+            if not light:
+                # the same MixturePrior object reused: a second grid first, then the one asked for
+                other = 3 if isinstance(tp, int) else 4
+                mp.make_discretised_prior(pop_arg, other)
+                extra["reused"] = mp.make_discretised_prior(pop_arg, tp_arg)
     finally:
         if old_xdg is None:
             os.environ.pop("XDG_CACHE_HOME", None)
@@ -207,7 +232,7 @@ def oracle(ctx, case, r):
     if not (len(tpts) >= 2 and np.all(np.diff(tpts) > 0)):
         ctx.oracle_fail("grid-not-increasing", "timepoints %r are not strictly increasing" % tpts.tolist()[:12], rp)
         return
-    tp = case["timepoints"]
+    tp = expand_tp(case["timepoints"])
     if isinstance(tp, int):
         if tpts[0] != 0.0:
             ctx.oracle_fail("grid-start", "generated grid starts at %r" % tpts[0], rp)
@@ -274,7 +299,9 @@ def oracle(ctx, case, r):
         # relative on the coalescent scale); allow for its effect on the normalised masses
         tcu = np.array(r["tc"], dtype=float)
         disc = float(np.max(np.abs(tc - tcu) / np.where(tcu > 0, tcu, 1.0))) if len(tcu) == len(tc) else 1.0
-        if not np.all(np.abs(exp - row) <= 1e-9 + 100.0 * min(disc, 1e-7)):
+        # on a very fine grid a perturbation dt of the timepoints changes an interval's mass by about 2 dt / width
+        fine = float(np.max(np.abs(tc - tcu)) / np.min(np.diff(tcu))) if len(tcu) == len(tc) else 1.0
+        if not np.all(np.abs(exp - row) <= 1e-9 + 100.0 * min(disc, 1e-7) + min(10.0 * fine, 1e-3)):
             ctx.oracle_fail("row-masses", "node %d row %r is not the normalised %s interval mass %r"
                             % (u, row.tolist()[:12], case["distr"], exp.tolist()[:12]), rp)
             return
@@ -380,12 +407,65 @@ def correspondence(ctx, cases, results):
 
 def summarize(case, r):
     tp = case["timepoints"]
-    d = {"samples": sum(1 for f in case["ts"]["nodes_flags"] if f & 1), "nodes": len(case["ts"]["nodes_time"]),
-         "edges": len(case["ts"]["edges"]), "distr": case["distr"], "timepoints": tp, "pop": case["pop"],
+    tsd = case["ts"]
+    if "msprime" in tsd:
+        tsd = {"nodes_flags": [1] * tsd["msprime"]["n"], "nodes_time": [0] * (2 * tsd["msprime"]["n"] - 1), "edges": []}
+    d = {"samples": sum(1 for f in tsd["nodes_flags"] if f & 1), "nodes": len(tsd["nodes_time"]),
+         "edges": len(tsd["edges"]), "distr": case["distr"], "timepoints": tp, "pop": case["pop"],
          "deco": case.get("deco"), "approx": case.get("approx"), "allow_unary": case.get("allow_unary")}
     if r is not None:
         d["grid"] = [float(x) for x in r["prior"].timepoints][:8]
     return d
+
+
+def size_cases(ctx):
+    """ORACLE ONLY (too big for Coq literals): (#non-sample nodes) x (#timepoints) across 2^16 .. 2^21, and in the
+    thorough tier >= 55000 non-sample nodes with the default grid.  Replays keep generator parameters only."""
+    import time
+    import msprime
+    rng = ctx.rng
+    todo = []
+    targets = [20, 21, rng.choice([16, 18])] if ctx.tier == "quick" else [16, 18, 20, 20, 21, 21]
+    for e in targets:
+        n = rng.randint(20, 40)
+        ts = gen.sim_ts(rng, n=n, L=rng.choice([20, 100]), rec=rng.choice([0.02, 0.05, 0.1]), historical=False,
+                        multimerger=False)
+        if rng.random() < 0.4:
+            ts = gen.permute_nodes(rng, ts)
+        nn = ts.num_nodes - ts.num_samples
+        m = int((2 ** e) * rng.choice([1.05, 1.3, 1.9]) / nn) + 1
+        if pick_int := (e <= 18 and rng.random() < 0.6):
+            tp = max(2, min(m - 1, 1500))            # integer request: create_timepoints builds >= tp + 1 points
+        else:
+            kind = rng.choice(["linspace", "geom"])
+            hi = rng.choice([5.0, 20.0, 200.0])
+            tp = {"kind": kind, "m": m, "hi": hi, "lo": 1e-4}
+        if rng.random() < 0.5:
+            pop = rng.choice([1.0, 0.5, 100.0])
+        else:
+            pop = {"population_size": [rng.choice([1.0, 5.0]), rng.choice([0.5, 2.0, 10.0])], "time_breaks": [rng.choice([0.3, 2.0])]}
+        case = {"ts": gen.ts_tables_dict(ts), "distr": rng.choice(["lognorm", "gamma"]), "timepoints": tp, "pop": pop,
+                "poptype": "float", "deco": ["size-regime"], "allow_unary": False, "approx": None, "light": True}
+        todo.append((case, ts, "size-regime/nodes x timepoints > 2^%d" % e))
+    if ctx.tier == "thorough":
+        nbig = 56000 + rng.randint(0, 2000)
+        case = {"ts": {"msprime": {"n": nbig, "seed": rng.randrange(1, 2 ** 31)}}, "distr": rng.choice(["lognorm", "gamma"]),
+                "timepoints": 20, "pop": 1.0, "poptype": "float", "deco": ["size-regime"], "allow_unary": False,
+                "approx": 1000, "light": True}
+        todo.append((case, None, "size-regime/>=55000 non-sample nodes, default grid"))
+    for case, ts, kind in todo:
+        t0 = time.time()
+        try:
+            r = run_impl(case, ts, ctx.work, light=True)
+        except Exception as e:
+            ctx.oracle_fail("exception:%s" % type(e).__name__, "build_prior_grid raised %s: %s" % (type(e).__name__, str(e)[:300]), {"case": case})
+            continue
+        oracle(ctx, case, r)
+        shape = tuple(int(x) for x in r["prior"].grid_data.shape)
+        ctx.case(dict(summarize(case, r), grid_shape=shape, seconds=round(time.time() - t0, 1)), nontrivial=True, kind=kind)
+        ctx.tally("size-regime cells", shape[0] * shape[1])
+        if ctx.oracle_fails:
+            return
 
 
 def run(ctx, model_ok=True):
@@ -423,11 +503,16 @@ def run(ctx, model_ok=True):
             if added:
                 ctx.tally("thinning-loop-added-quantiles")
         ctx.case(summarize(c, r), nontrivial=nontriv, kind=kind)
+    if not ctx.oracle_fails:
+        size_cases(ctx)
     if model_ok:
         correspondence(ctx, cases, results)
 
 
 def search(ctx):
+    size_cases(ctx)
+    if ctx.oracle_fails:
+        return
     for _ in range(ctx.n(300, 1500)):
         c, ts = make_case(ctx.rng)
         try:
@@ -442,7 +527,7 @@ def replay(ctx, data):
     case = data["case"]["case"]
     before = len(ctx.oracle_fails)
     try:
-        oracle(ctx, case, run_impl(case, None, ctx.work))
+        oracle(ctx, case, run_impl(case, None, ctx.work, light=bool(case.get("light"))))
     except Exception:
         return False
     return len(ctx.oracle_fails) == before
